@@ -570,3 +570,71 @@ add("E-bytes-01-fasthash-lines-reordered", ["C11"], "hashes",
     "    elif switch_case == 2:\n        tail = key[nblocks * 8 :]\n        v = uint64(0)\n        v = _xor_shiftl(v, tail[1], 8)\n        v ^= uint64(tail[0])",
     "    elif switch_case == 2:\n        tail = key[nblocks * 8 :]\n        v = uint64(0)\n        v ^= uint64(tail[0])\n        v = _xor_shiftl(v, tail[1], 8)", kind="E")
 add("E-blockloop-01-murmur-iterates-directly", ["C11"], "hashes", "    for i in range(nblocks):\n        k1 = blocks[i]", "    for k1 in blocks:", kind="E")
+
+# ---------------------------------------------------------------------------
+# parallel_add protocol (C08, C19)
+# ---------------------------------------------------------------------------
+add("pills-01-one-pill-short", ["C08"], "helpers", "    for _ in range(n_workers):\n        queue.put(None)", "    for _ in range(n_workers - 1):\n        queue.put(None)", rules=["pills"])
+add("pills-02-item-put-twice", ["C08"], "helpers", "        queue.put(item)\n        try:", "        queue.put(item)\n        queue.put(item)\n        try:", rules=["pills"])
+add("pills-03-items-filtered", ["C08"], "helpers", "        queue.put(item)\n        try:", "        if i % 7 != 6:\n            queue.put(item)\n        try:", rules=["pills"])
+add("pills-04-extra-worker", ["C08"], "helpers", "    workers = []\n    for i in range(n_workers):", "    workers = []\n    for i in range(n_workers + 1):", rules=["pills"])
+add("pills-05-pills-before-items", ["C08"], "helpers",
+    "    for i, item in enumerate(items):\n        queue.put(item)\n        try:\n            item_str = str(item)\n        except:\n            item_str = str(i + i)\n        log_queue.put({\"level\": \"DEBUG\", \"text\": f\"{item_str} placed on the queue\"})\n\n    for _ in range(n_workers):\n        queue.put(None)\n",
+    "    for _ in range(n_workers):\n        queue.put(None)\n    for i, item in enumerate(items):\n        queue.put(item)\n        try:\n            item_str = str(item)\n        except:\n            item_str = str(i + i)\n        log_queue.put({\"level\": \"DEBUG\", \"text\": f\"{item_str} placed on the queue\"})\n\n",
+    rules=["pills"])
+add("once-01-callback-twice", ["C08"], "helpers",
+    "                n_recs = process_q_item(q_item, *local_sketches, **kwargs)\n", "                n_recs = process_q_item(q_item, *local_sketches, **kwargs)\n                n_recs = process_q_item(q_item, *local_sketches, **kwargs)\n", rules=["once"])
+add("once-02-two-gets", ["C08"], "helpers",
+    "        q_item = in_queue.get()\n        # Process a queue_item\n        if q_item is not None:", "        q_item = in_queue.get()\n        q_item = in_queue.get()\n        # Process a queue_item\n        if q_item is not None:", rules=["once"])
+add("once-03-skips-every-falsy-item", ["C08"], "helpers",
+    "        q_item = in_queue.get()\n        # Process a queue_item\n        if q_item is not None:", "        q_item = in_queue.get()\n        # Process a queue_item\n        if q_item:", rules=["once"])
+add("nrecs-01-count-not-added-at-pill", ["C08"], "helpers",
+    "                    local_sketch.n_added_records[1] += np.uint64(n_records)", "                    local_sketch.n_added_records[1] = np.uint64(n_records)", rules=["nrecs"])
+add("nrecs-02-count-into-slot0", ["C08"], "helpers",
+    "                    local_sketch.n_added_records[1] += np.uint64(n_records)", "                    local_sketch.n_added_records[0] += np.uint64(n_records)", rules=["nrecs"])
+add("nrecs-03-hh-merge-drops-records", ["C08"], "heavyhitters",
+    "    n_added_records[0] += other_n_added_records[0]\n    n_added_records[1] += other_n_added_records[1]\n\n\n@njit(\n    uint32(", "    n_added_records[0] += other_n_added_records[0]\n\n\n@njit(\n    uint32(", rules=["nrecs"])
+add("nrecs-04-accumulate-one-per-item", ["C08"], "helpers", "            n_records += n_recs\n", "            n_records += 1\n", rules=["nrecs"])
+add("join-01-merge-before-join", ["C08"], "helpers",
+    "    # Wait for the workers to finish\n    for p in workers:\n        p.join()\n\n    if cms_args:", "    if cms_args:", rules=["joinfirst"])
+add("join-02-joins-all-but-last", ["C08"], "helpers",
+    "    # Wait for the workers to finish\n    for p in workers:\n        p.join()", "    # Wait for the workers to finish\n    for p in workers[:-1]:\n        p.join()", rules=["joinfirst"])
+add("join-03-hh-merges-cms-array", ["C08"], "helpers", "        hh_final = parallel_merging(hh_array, log_queue)", "        hh_final = parallel_merging(cms_array, log_queue)", rules=["joinfirst"])
+add("tree-01-survivors-drop-odd", ["C08"], "helpers", "        for i in range(0, n_to_merge, 2):\n            new_sketch_array.append(sketch_array[i])", "        for i in range(0, n_to_merge - 1, 2):\n            new_sketch_array.append(sketch_array[i])", rules=["mergetree"])
+add("tree-02-pairs-shifted", ["C08"], "helpers",
+    "            sketch1 = (sketch_type, sketch_args, sketch_array[i * 2].shm.name)\n            sketch2 = (sketch_type, sketch_args, sketch_array[i * 2 + 1].shm.name)",
+    "            sketch1 = (sketch_type, sketch_args, sketch_array[i * 2 + 1].shm.name)\n            sketch2 = (sketch_type, sketch_args, sketch_array[i * 2 + 2].shm.name)", rules=["mergetree"])
+add("tree-03-merge-direction-swapped", ["C08"], "helpers", "    s1.merge(s2)\n", "    s2.merge(s1)\n", rules=["mergetree"])
+add("tree-04-overlapping-pairs", ["C08"], "helpers",
+    "            sketch2 = (sketch_type, sketch_args, sketch_array[i * 2 + 1].shm.name)", "            sketch2 = (sketch_type, sketch_args, sketch_array[i + 1].shm.name)", rules=["mergetree"])
+add("tree-05-pairs-one-fewer", ["C08"], "helpers", "        for i in range(n_to_merge // 2):\n            sketch1", "        for i in range((n_to_merge - 1) // 2):\n            sketch1", rules=["mergetree"])
+add("tree-06-no-join", ["C08"], "helpers",
+    "        for p in mergers:\n            p.join()\n            if p.exitcode < 0:\n                raise RuntimeError(f\"A _merge_worker had bad {p.exitcode=:}\")\n", "", rules=["mergetree"])
+add("tree-07-returns-last", ["C08"], "helpers", "    return sketch_array[0]", "    return sketch_array[-1]", kind="E")
+add("ret-01-swapped-pair", ["C08"], "helpers", "        return cms_final, hll_final\n", "        return hll_final, cms_final\n", rules=["rettable"])
+add("ret-02-hh-hll-returns-hh-only", ["C08"], "helpers", "    elif hh_args and hll_args:\n        return hh_final, hll_final", "    elif hh_args and hll_args:\n        return hh_final", rules=["rettable"])
+add("ret-03-order-of-tests", ["C08"], "helpers",
+    "    if cms_args and hh_args and hll_args:\n        return cms_final, hh_final, hll_final\n    elif cms_args and hh_args:\n        return cms_final, hh_final",
+    "    if cms_args and hh_args:\n        return cms_final, hh_final\n    elif cms_args and hh_args and hll_args:\n        return cms_final, hh_final, hll_final", rules=["rettable"])
+add("cover-01-hh-merge-prange-col", ["C08"], "heavyhitters",
+    "    for row in prange(depth):\n        for col in range(width):\n            keys_match", "    for row in prange(depth):\n        for col in range(width):\n            row = row * 0\n            keys_match", rules=["cover"])
+add("E-pills-01-surplus-pill", ["C08"], "helpers", "    for _ in range(n_workers):\n        queue.put(None)", "    for _ in range(n_workers + 1):\n        queue.put(None)", kind="E")
+
+add("cb-01-handler-reraises", ["C19"], "helpers", "            except Exception as exc:\n                n_recs = 0\n", "            except Exception as exc:\n                n_recs = 0\n                raise\n", rules=["cb-guard"])
+add("cb-02-handler-counts-one", ["C19"], "helpers", "            except Exception as exc:\n                n_recs = 0\n", "            except Exception as exc:\n                n_recs = 1\n", rules=["cb-guard"])
+add("cb-03-handler-stale-count", ["C19"], "helpers", "            except Exception as exc:\n                n_recs = 0\n", "            except Exception as exc:\n", rules=["cb-guard"])
+add("cb-04-narrow-exception", ["C19"], "helpers", "            except Exception as exc:\n                n_recs = 0\n", "            except ValueError as exc:\n                n_recs = 0\n", rules=["cb-guard"])
+add("cb-05-handler-returns", ["C19"], "helpers", "            except Exception as exc:\n                n_recs = 0\n", "            except Exception as exc:\n                n_recs = 0\n                return None\n", rules=["cb-guard", "once"])
+add("cb-06-no-try", ["C19"], "helpers",
+    "            try:\n                n_recs = process_q_item(q_item, *local_sketches, **kwargs)\n            except Exception as exc:\n                n_recs = 0\n                msg = f\"WORKER {worker_id:02} threw exception on {q_item}: {exc}\"\n                log_queue.put(\n                    {\n                        \"level\": \"ERROR\",\n                        \"text\": msg,\n                    }\n                )\n",
+    "            n_recs = process_q_item(q_item, *local_sketches, **kwargs)\n", rules=["cb-guard"])
+add("dead-01-negative-codes-only", ["C19"], "helpers", "            elif p.exitcode != 0:", "            elif p.exitcode < 0:", rules=["dead-detect"])
+add("dead-02-no-queue-close", ["C19"], "helpers", "                # Now close all the queues\n                queue.close()\n                log_queue.close()\n", "", rules=["dead-raise"])
+add("dead-03-no-worker-kill", ["C19"], "helpers", "                for worker in workers:\n                    worker.kill()\n", "", rules=["dead-cleanup"])
+add("dead-04-filler-not-killed", ["C19"], "helpers", "                if fill_queue_process.exitcode is None:\n                    fill_queue_process.kill()\n", "", rules=["dead-cleanup"])
+add("dead-05-monitor-first-worker-only", ["C19"], "helpers", "        for i, p in enumerate(workers):\n            # Still running", "        for i, p in enumerate(workers[:1]):\n            # Still running", rules=["dead-detect"])
+add("dead-06-log-put-made-conditional", ["C19"], "helpers",
+    "    # Send poison pill to the log_process\n    log_queue.put(None)", "    # Send poison pill to the log_process\n    if log_process.exitcode is None:\n        log_queue.put(None)", rules=["dead-raise"])
+add("dead-07-only-work-queue-closed", ["C19"], "helpers", "                queue.close()\n                log_queue.close()\n", "                queue.close()\n", rules=["dead-raise"])
+add("E-dead-01-explicit-raise", ["C19"], "helpers", "                queue.close()\n                log_queue.close()\n", "                queue.close()\n                log_queue.close()\n                raise RuntimeError(msg)\n", kind="E")
+add("E-dead-02-not-eq-zero", ["C19"], "helpers", "            elif p.exitcode != 0:", "            elif not p.exitcode == 0:", kind="E")
